@@ -78,6 +78,7 @@ theorem apply_inv (w : DW Seed Key) (op : Op) (h : Inv step w) :
   | relock => exact ⟨h, rfl⟩
   | lock => exact ⟨h, rfl⟩
   | unlock => exact ⟨h, rfl⟩
+  | scanFail n => exact ⟨h, rfl⟩
 
 /-- **entries_eq_prefix**: after ANY sequence of generate / scan / save-reload / lock / unlock
 operations the wallet's entries are exactly the first N keys of the single sequence determined by
@@ -186,6 +187,7 @@ theorem crun_inv (ops : List Op) : CInv child (crun child ops) := by
       | relock => exact h
       | lock => exact h
       | unlock => exact h
+      | scanFail n => exact h
   exact this ops ⟨[]⟩ (by simp [CInv])
 
 /-- **entries_eq_prefix** for bip44 chains and xpub wallets: entry i is child i of the chain key,
